@@ -41,6 +41,26 @@ CLAIMED = {
    text="As C02 for verify_stream.go/verify.go: stream logic; an accepted packet's signature verifies under the looked-up key on domain||SHA-512(header hash||seqno||[final]||chunk) (unique decomposition); other modes refused at the header; the reduction relative to all attached messages the key owner signed (signature forgery / hash collision as explicit Break).",
    note="As C02 (no payload-key hypothesis needed: chunks are in the clear). items.length < 2^64 (physical bound: the Go seqno is a uint64).",
    technique="Lean 4 proof + mutation differential correspondence", design="§7 C05/C06"),
+ "C11": dict(
+   text="Machine-checked Lean 4 proof over the model of armor.go/armor62.go/frame.go: frame shape; body = words of <=15 base62 characters with a newline exactly after every 200th; round trip of the sealed text for every payload, armorable type and alphanumeric brand <=128; tolerant dearmoring of every variant (arbitrary runs of space/tab/CR/LF/'>' between payload characters, between frame words and around the frames, trimmed frames <=512) to the identical payload and brand; rejection of other types, non-mirroring footers, over-long frames and brands. Tied to /repo by an exact differential of Armor62Seal, Armor62Open(WithValidation), MakeArmorHeader/Footer, parseFrame, CheckArmor62 on every payload length 0..N, exhaustive short strings over {'.',' ','0','z','!','>'}, malformed frames and random re-flows (~20k cases quick).",
+   note="Interpretation: 'identical header and footer' is read modulo the white-space normalisation of the frame grammar (a re-flowed frame is returned as received, trimmed). The streaming decoder = this whole-text meaning is C13's concern. Trusted: Lean kernel, regexp/strings of the Go stdlib (re-implemented recognisers compared on enumerated/random strings), harness.",
+   technique="Lean 4 proof (list surgery on periods/white space; BaseX round trip from C10; decide +kernel over the 256 byte values) + exhaustive/differential correspondence", design="§7 C11"),
+ "C12": dict(
+   text="Machine-checked Lean 4 proof over call logs the model returns next to every result (also on error paths): for ALL headers/packets/keyrings a decrypting receiver's long-term key opens boxes only under the V1 constant or saltpack_recipsb||be64(index) and otherwise boxes only 32 zero bytes; a signcryption opener only boxes 32 zero bytes under the fixed derived-key nonce; a sender's long-term box key only boxes 32 zero bytes; signing keys sign only domain string || fixed-length hash material (64 / 64+24+1+64 bytes). Tied to /repo by comparing the model's log entry by entry with what logging key objects record around Open/SigncryptOpen/Seal/Sign/SignDetached/SigncryptSeal on genuine, mutated and forged input, and by evaluating the property's predicate on the implementation's own logs.",
+   note="Trusted: harness key objects (they log at the BoxSecretKey/BoxPrecomputedSharedKey/SigningSecretKey interfaces), Lean kernel, correspondence. Call-site inventory from source is not yet part of the obligations.",
+   technique="Lean 4 proof (induction over the key-trial loops) + call-log differential correspondence", design="§7 C12"),
+ "C15": dict(
+   text="Machine-checked Lean 4 proof: every model receiver is a total function (termination checker; no partial defs) and, for ALL decoded headers/packets, ALL keyring/resolver functions (nil results, out-of-range indices) and any validator admitting only majors 1,2, no run ends in a panic (each explicit panic( and each index/nil dereference on attacker data is a model branch); the validator contract is shown necessary; frame collection is bounded by 8192. Tied to /repo by ~8k (quick) hostile cases: tree/packet/byte mutations of every mode x nine hostile keyring behaviours x resolver behaviours, random and length-bomb byte strings, each compared with the model (panic = disagreement) and checked for panics on the implementation.",
+   note="Partial by nature: 'never allocates memory driven by length fields' and hangs inside go-codec/runtime are not expressible in the model; the harness only observes that every case returns. Armor/classify entry points are covered by C11/C16 streams.",
+   technique="Lean 4 proof (no-panic by case analysis over every panic site; totality by construction) + hostile-input differential correspondence", design="§7 C15"),
+ "C17": dict(
+   text="Machine-checked Lean 4 proof: each receiving model entry point releases or accepts anything only if the header names 'saltpack', carries an admitted version (major 2 for signcryption) and the mode it serves; mode numbers and signature domain strings (generated from /repo) are pairwise distinct / non-prefix, so one header can never serve two entry points; senders refuse every version other than 1.0/2.0 with an error before drawing randomness or writing, and label what they emit with the requested version and their own mode. Tied to /repo by every (producing mode/version, consuming entry point, validator) triple, every Version value to every sender, header edits, and fully consistent messages from the independent reference sender that name another format / major / mode (must be refused).",
+   note="Cross-mode acceptance with recomputed hashes reduces to C02/C04/C06's Break. Trusted as C02.",
+   technique="Lean 4 proof (case analysis of validate/processHeader; decide on generated constants) + cross-feed differential correspondence", design="§7 C17"),
+ "C18": dict(
+   text="Machine-checked Lean 4 proof over the randomness-script model: a full read returns exactly the bytes the source delivered and leaves a suffix (consecutive operations use disjoint consecutive segments); Seal's shuffle draws, ephemeral key and payload key, and a signature's header nonce, are exactly those reads in that order; an error or short read before the requested count fails the read and Seal returns an error; chunk, signcryption, payload-key-box and MAC-key-box nonces are injective in their counters below the overflow guard, the sender-secretbox nonce differs from every chunk nonce, and the encoder refuses packet numbers at the guard. Tied to /repo by byte-exact sealing/signing under scripted crypto/rand (pins the draw order), a fault (error / short+error / exhausted) at every read of every sealing/signing entry point, and repeated identical calls with the real source.",
+   note="The source itself (uniform, non-repeating) is trusted. For armored streams the armor header sentence is written before randomness is drawn (observed, harmless).",
+   technique="Lean 4 proof (structural induction over the read script; injectivity of counters) + fault-injection differential correspondence", design="§7 C18"),
 }
 
 ALL = ["C%02d" % i for i in range(1, 21)]
